@@ -1,4 +1,5 @@
 import Iauthd.Proto.Step
+import Iauthd.Proto.Hist
 import Drv.Util
 /-
   drv_proto model [--version <hex>]  < ops        one record per op, as harness/h_proto.c
@@ -83,10 +84,116 @@ def stepOp (version : Bytes) (d : DSt) (line : String) : DSt × String :=
     | ["logfile", _] => (d, "log ?")
     | _ => (d, "bad-op")
 
+/-! ### judge: the Spec evaluated on the implementation's observed behaviour -/
+
+open Iauthd.Proto.Hist in
+structure JSt where
+  mods : Nat := 0
+  conf : Config := {}
+  t : Tracker := {}
+  started : Bool := false
+  skip : Bool := false        -- trace outside the judge's format (multi-line chunk)
+
+def unhexLines (h : String) : List Bytes :=
+  let data := Bytes.ofHex h
+  let rec go (cur : Bytes) (acc : List Bytes) : Bytes → List Bytes
+    | [] => (if cur.isEmpty then acc else cur.reverse :: acc).reverse
+    | c :: cs => if c == 10 then go [] (cur.reverse :: acc) cs else go (c :: cur) acc cs
+  go [] [] data
+
+open Iauthd.Proto.Hist in
+def servicesOf (c : Config) : List (Bytes × Option Hist.Proto) :=
+  (c.xq.filter (·.isString)).map fun n => (n.name, protoOfText (cstr n.value))
+
+def fmtViol (vs : List Hist.Violation) : String :=
+  if vs.isEmpty then "ok" else "viol " ++ "|".intercalate (vs.map fun v => v.prop ++ ":" ++ v.why.replace "|" "/")
+
+open Iauthd.Proto.Hist in
+/-- one (op, implementation record) pair -/
+def judgeOp (j : JSt) (op : String) (rec : String) : JSt × String :=
+  if op.startsWith "case " then ({}, op)
+  else
+    let rf := Drv.fields rec
+    if rf.head? == some "fault" then
+      (j, "viol C08:the daemon crashed, hung or touched foreign memory (" ++ rec ++ ")")
+    else
+    match Drv.fields op with
+    | ["modules", m] => ({ j with mods := if m == "class" then 2 else if m == "xquery" then 1 else 0 }, "ok")
+    | "conf" :: _ :: rest => ({ j with conf := (parseConfig rest).1 }, "ok")
+    | ["verbosity", _] => (j, "ok")
+    | ["start"] =>
+      let t : Tracker := { hasXq := j.mods ≥ 1, services := if j.mods ≥ 1 then servicesOf j.conf else [] }
+      let outs := match rf with | ["rc", _, "out", h] => unhexLines h | _ => []
+      let (t, v) := onOutputs t {} outs
+      -- the banner must come first
+      let v := if (outs.headD []).take 3 == b "V :" then v else v ++ [⟨"C09", "the first line is not the version banner"⟩]
+      ({ j with t := t, started := true }, fmtViol v)
+    | "in" :: h :: _ =>
+      let chunk := Bytes.ofHex h
+      let (lines, tail) := Iauthd.Proto.splitLines chunk
+      if lines.length != 1 || !tail.isEmpty then ({ j with skip := true }, "skip")
+      else if j.skip then (j, "skip")
+      else
+        let raw := cstr (lines.headD [])
+        let outs := match rf with | ["out", oh] => unhexLines oh | _ => []
+        let (t, ex) := if raw.isEmpty then (j.t, {}) else onLine j.t raw
+        let (t, v) := onOutputs t ex outs
+        let v := v ++ stuck t
+        -- C10: an `S iauth` line must report the number of live instances
+        let v := outs.foldl (fun v l =>
+          if (l.take 9) == b "S iauth :" then
+            match inUseOf (l.drop 9) with
+            | some n => if n != t.live.length then v ++ [⟨"C10", s!"{n} requests reported in use, {t.live.length} clients are live"⟩] else v
+            | none => v
+          else v) v
+        ({ j with t := t }, fmtViol v)
+    | ["timeout", id] =>
+      if j.skip then (j, "skip") else
+      let fired := rf.getLast? == some "fired"
+      let outs := match rf with | "out" :: oh :: _ => unhexLines oh | _ => []
+      let t := onTimeout j.t (id.toInt?.getD 0) fired
+      let (t, v) := onOutputs t {} outs
+      ({ j with t := t }, fmtViol (v ++ stuck t))
+    | "reload" :: _ :: rest =>
+      let (cfg, bad) := parseConfig rest
+      let ok := match rf with | "rc" :: r :: _ => r == "0" | _ => false
+      let outs := match rf with | ["rc", _, "out", oh] => unhexLines oh | _ => []
+      let v : List Violation := if outs.isEmpty then [] else [⟨"C09", "a reload wrote to the server channel"⟩]
+      if bad || !ok then (j, fmtViol v)
+      else ({ j with conf := cfg, t := { j.t with services := if j.mods ≥ 1 then servicesOf cfg else [] } }, fmtViol v)
+    | ["eof"] =>
+      let v : List Violation :=
+        (if rf.contains "clean=1" then [] else [⟨"C08", "end of input did not lead to a clean exit"⟩])
+        ++ (if rf.contains "timers=0" then [] else [⟨"C10", "request timers survive the shutdown"⟩])
+      (j, fmtViol v)
+    | _ => (j, "ok")
+
 end Drv.ProtoDrv
 
 open Drv Drv.ProtoDrv in
+def mainJudge : IO UInt32 := do
+  let lines ← readLines
+  let mut j : JSt := {}
+  let mut out : Array String := #[]
+  let mut i := 0
+  while i < lines.size do
+    let op := lines[i]!
+    if op.startsWith "case " then
+      j := {}
+      out := out.push op
+      i := i + 1
+    else
+      let recd := if i + 1 < lines.size && lines[i+1]!.startsWith "=> " then (lines[i+1]!.drop 3).toString else ""
+      let (j', o) := judgeOp j op recd
+      j := j'
+      out := out.push o
+      i := if i + 1 < lines.size && lines[i+1]!.startsWith "=> " then i + 2 else i + 1
+  emit (← IO.getStdout) out
+  return 0
+
+open Drv Drv.ProtoDrv in
 def main (args : List String) : IO UInt32 := do
+  if args.head? == some "judge" then return (← mainJudge)
   let version := match args with
     | _ :: "--version" :: v :: _ => Bytes.ofHex v
     | _ => Bytes.ofString "iauthd-c iauthd-git"
